@@ -437,6 +437,12 @@ def run(P, R, tier):
     c13.hex_table(P, R, 'C11.TAB.4')
     # a host rule (/128, /32) keeps its full prefix length, and every bit of an odd prefix length is compared
     c13.full_range(P, R, c13.scope(P), 'C11.TAB.5', parts=('prefix', 'residue'))
+    # a rule address written with "::" is expanded to the eight groups it stands for
+    from . import c12
+    c12.expansion_count(P, R, P.need_fn('irc_pton'), 'C11.TAB.6')
+    # trust_username is a boolean word: each spelling has one meaning
+    from . import c16
+    c16.keyword_chains(P, R, 'C11.TAB.7')
     R.floor('C11.TAB.5', 3)
     ok_recorded(P, R)
     H = compile_pass(P, R)
